@@ -609,6 +609,7 @@ Proof.
   - eapply inva_RDeliver; eassumption.
   - eapply inva_RUnlock; eassumption.
   - eapply inva_RSignal; eassumption.
+  - cbn [lstep] in Hl. destruct (wpc st); [|discriminate]. apply some_inj in Hl. subst st'. exact I.
 Qed.
 
 End RingInv.
